@@ -27,4 +27,5 @@ def main(tier):
     chk.run("R-TWIN", C.twin, cx.cpp, floor=40)
     chk.run("R-IFACE", C.iface, cx.cpp, cx.templates, floor=80)
     chk.run("R-COPY", C.copy_rule, cx.cpp, cx.templates, floor=6)
+    chk.run("R-STORAGEIFACE", C.storageiface, cx.cpp, cx.templates, floor=12)
     return chk.finish()
